@@ -10,6 +10,8 @@ use serde_json::Value;
 #[derive(Default, Clone, Debug)]
 pub struct Known {
     open: BTreeMap<String, String>,
+    /// raw entries of the open findings (extra fields such as panic signatures)
+    pub entries: Vec<Value>,
 }
 
 impl Known {
@@ -34,6 +36,7 @@ impl Known {
                     .unwrap_or(false);
                 let status = f.get("status").and_then(|x| x.as_str()).unwrap_or("open");
                 if (prop == property || also) && status == "open" && !id.is_empty() {
+                    k.entries.push(f.clone());
                     k.open.insert(
                         id.to_string(),
                         f.get("signature")
